@@ -159,22 +159,26 @@ class BIFReader(object):
             + Suppress(")")
         )
         optional_expr = Suppress("(") + OneOrMore(word_expr2) + Suppress(")")
-        probab_attributes = optional_expr | Suppress("table") | Suppress("default")
+        probab_attributes = (
+            optional_expr | Suppress(pp.Keyword("table")) | Suppress(pp.Keyword("default"))
+        )
         cpd_expr = probab_attributes + OneOrMore(num_expr)
 
         return probability_expr, cpd_expr
 
     def variable_block(self):
-        start = re.finditer("variable", self.network)
+        # Only the keyword at the beginning of a line starts a block; the word may
+        # also occur inside variable or state names.
+        start = re.finditer(r"(?m)^[ \t]*variable\s", self.network)
         for index in start:
             end = self.network.find("}\n", index.start())
-            yield self.network[index.start() : end]
+            yield self.network[index.start() : end].lstrip()
 
     def probability_block(self):
-        start = re.finditer("probability", self.network)
+        start = re.finditer(r"(?m)^[ \t]*probability\s*\(", self.network)
         for index in start:
             end = self.network.find("}\n", index.start())
-            yield self.network[index.start() : end]
+            yield self.network[index.start() : end].lstrip()
 
     def get_network_name(self):
         """
